@@ -648,7 +648,7 @@ func (g *gen) sDefer() {
 		g.line("}()")
 	case 2:
 		g.f("defer:method-call")
-		if g.noAtoms > 0 || (g.o.Clean && g.panicky) {
+		if g.noAtoms > 0 {
 			g.line("defer y.Tr(%d)", g.r.Intn(50))
 		} else {
 			g.line("defer t.PM(%d)", g.nextAtom())
@@ -668,10 +668,8 @@ func (g *gen) sDefer() {
 
 // deferBody emits statements inside a deferred closure. recovered: a recover() call precedes them.
 func (g *gen) deferBody(recovered bool) {
-	restrict := g.o.Clean && g.panicky && !recovered
-	if restrict {
-		g.noAtoms++ // F7 shape: a suspension inside a non-recovering deferred call while a panic propagates
-	} else if g.panicky && !recovered {
+	restrict := false // the F7 shape (suspension inside a non-recovering deferred call while a panic propagates) is fixed: generated in every mode
+	if g.panicky && !recovered {
 		g.f("defer:atom-while-maybe-panicking")
 	}
 	n := 1 + g.r.Intn(2)
@@ -749,10 +747,7 @@ func (g *gen) sPanic() {
 // restricted runs fn with atoms disabled when, in clean mode, the code may execute inside a deferred call
 // while a panic is propagating and before any recover (known shape F7).
 func (g *gen) restricted(fn func()) {
-	if g.o.Clean && g.panicky {
-		g.noAtoms++
-		defer func() { g.noAtoms-- }()
-	} else if g.panicky {
+	if g.panicky {
 		g.f("defer:atom-while-maybe-panicking")
 	}
 	fn()
@@ -1082,8 +1077,8 @@ func (g *gen) function(idx int) {
 	g.line("_, _, _, _, _, _, _, _, _, _ = a, b, c, s, arr, sl, m, st, ps, pi")
 	g.line("_, _, _, _, _, _, _, _, _, _, _ = t, tv, e, i, fv, mv, bx, bv, ch, ch2, nilch")
 	g.line("_ = runtime.NumGoroutine")
-	if g.panicky && !g.o.Clean && g.o.Unwind && g.r.Chance(1, 3) {
-		// trigger-allowed mode only (known shape F7): the function does not recover its own panics, so a panic
+	if g.panicky && g.o.Unwind && g.r.Chance(1, 3) {
+		// the function does not recover its own panics, so a panic
 		// propagates through the deferred calls of its callers, which may suspend while it is in flight
 		g.f("func:leaky-panics-propagate")
 		g.line("// leaky: panics propagate to the caller")
